@@ -163,6 +163,9 @@ def b64s_decode(data):
             raise ValueError(
                 "string argument should contain only ASCII characters"
             ) from None
+    if data.translate(None, _BASE64_BYTES):
+        # NOTE: a2b_base64() would silently skip foreign characters
+        raise TypeError("invalid base64 character")
     off = len(data) & 3
     if off == 0:
         pass
@@ -179,6 +182,7 @@ def b64s_decode(data):
 
 
 _BASE64_STRIP = b"=\n"
+_BASE64_BYTES = BASE64_CHARS.encode("ascii")
 _BASE64_PAD1 = b"="
 _BASE64_PAD2 = b"=="
 
